@@ -17,9 +17,10 @@
 //!           concurrently (sharing the VmModules when warm); every thread reports its digests
 //!   fresh : the harness re-executes itself as a child process for the run
 //!
-//! Workload: repository scenarios (given names, or all that are valid at the latest protocol
-//! version) followed by generated transactions that create many vaults / non-fungible ids /
-//! metadata entries in ONE transaction, a failing and a rejected transaction.
+//! Workload: generated transactions that create many vaults / non-fungible ids / metadata
+//! entries in ONE transaction, a failing, an unauthorised and a rejected transaction (first, so
+//! that runs executing only a prefix cover them), then repository scenarios (given names, or
+//! all that are valid at the latest protocol version).
 use radix_engine::system::system_db_reader::SystemDatabaseReader;
 use radix_engine::transaction::*;
 use radix_engine::updates::ProtocolBuilder;
@@ -120,49 +121,8 @@ fn execute_copy(run: &RunCfg, shared: &DefaultVmModules, scen: &str, gen: u64) -
         out.push((label, digest(&receipt)));
         receipt
     };
-    // (i) repository scenarios
-    let mut nonce = 0u32;
-    let wanted: Vec<&str> = scen.split(',').filter(|s| !s.is_empty()).collect();
-    for creator in all_scenarios_iter() {
-        let md = creator.metadata();
-        let at_latest = ProtocolVersion::LATEST >= md.protocol_min_requirement && ProtocolVersion::LATEST <= md.protocol_max_requirement;
-        if !at_latest || !(wanted.contains(&"all") || wanted.contains(&md.logical_name)) {
-            continue;
-        }
-        let epoch = SystemDatabaseReader::new(&db)
-            .read_object_field(CONSENSUS_MANAGER.as_node_id(), ModuleId::Main, ConsensusManagerField::State.field_index())
-            .expect("consensus manager")
-            .as_typed::<VersionedConsensusManagerState>()
-            .unwrap()
-            .fully_update_and_into_latest_version()
-            .epoch;
-        let mut scenario = creator.create(ScenarioCore::new(network.clone(), epoch, nonce));
-        let mut previous: Option<TransactionReceipt> = None;
-        loop {
-            let next = scenario.next(previous.as_ref()).map_err(|e| e.into_full(scenario.as_ref())).expect("scenario step");
-            match next {
-                NextAction::Transaction(tx) => {
-                    let validated = tx.raw_transaction.validate(&validator).expect("scenario transaction validates");
-                    let receipt = exec(
-                        &mut db,
-                        format!("{}:{}", md.logical_name, tx.logical_name),
-                        ExecutionConfig::for_notarized_transaction(network.clone()),
-                        validated.create_executable(),
-                        &mut out,
-                    );
-                    previous = Some(receipt);
-                    if out.len() >= run.len {
-                        return out;
-                    }
-                }
-                NextAction::Completed(end) => {
-                    nonce = end.next_unused_nonce;
-                    break;
-                }
-            }
-        }
-    }
-    // (ii) generated transactions
+    // (i) generated transactions FIRST: the runs that execute only a prefix of the sequence (debug
+    // information) must cover the transactions that create many vaults / ids / entries at once
     if gen > 0 {
         let pk = Secp256k1PrivateKey::from_u64(77).unwrap().public_key();
         let badge = NonFungibleGlobalId::from_public_key(&pk);
@@ -250,6 +210,48 @@ fn execute_copy(run: &RunCfg, shared: &DefaultVmModules, scen: &str, gen: u64) -
             let m = mb.try_deposit_entire_worktop_or_abort(b, None).build();
             run_manifest(&mut db, &format!("faucet{}", round), m, true, &mut out);
             stop!();
+        }
+    }
+    // (ii) repository scenarios
+    let mut nonce = 0u32;
+    let wanted: Vec<&str> = scen.split(',').filter(|s| !s.is_empty()).collect();
+    for creator in all_scenarios_iter() {
+        let md = creator.metadata();
+        let at_latest = ProtocolVersion::LATEST >= md.protocol_min_requirement && ProtocolVersion::LATEST <= md.protocol_max_requirement;
+        if !at_latest || !(wanted.contains(&"all") || wanted.contains(&md.logical_name)) {
+            continue;
+        }
+        let epoch = SystemDatabaseReader::new(&db)
+            .read_object_field(CONSENSUS_MANAGER.as_node_id(), ModuleId::Main, ConsensusManagerField::State.field_index())
+            .expect("consensus manager")
+            .as_typed::<VersionedConsensusManagerState>()
+            .unwrap()
+            .fully_update_and_into_latest_version()
+            .epoch;
+        let mut scenario = creator.create(ScenarioCore::new(network.clone(), epoch, nonce));
+        let mut previous: Option<TransactionReceipt> = None;
+        loop {
+            let next = scenario.next(previous.as_ref()).map_err(|e| e.into_full(scenario.as_ref())).expect("scenario step");
+            match next {
+                NextAction::Transaction(tx) => {
+                    let validated = tx.raw_transaction.validate(&validator).expect("scenario transaction validates");
+                    let receipt = exec(
+                        &mut db,
+                        format!("{}:{}", md.logical_name, tx.logical_name),
+                        ExecutionConfig::for_notarized_transaction(network.clone()),
+                        validated.create_executable(),
+                        &mut out,
+                    );
+                    previous = Some(receipt);
+                    if out.len() >= run.len {
+                        return out;
+                    }
+                }
+                NextAction::Completed(end) => {
+                    nonce = end.next_unused_nonce;
+                    break;
+                }
+            }
         }
     }
     out
